@@ -162,9 +162,9 @@ theorem toExprL_length : ∀ l : List CExpr, (toExprL l).length = l.length
   | _ :: as => by simp [toExprL, toExprL_length as]
 
 mutual
-theorem cmpR_toExpr : ∀ (a b : CExpr), cmpR a b = Expr.cmp a.toExpr b.toExpr
+theorem cmpR_toExpr : ∀ (a b : CExpr), cmpR a b = Expr.cmpC .byRepr a.toExpr b.toExpr
   | .op k aux as, b => by
-    unfold cmpR Expr.cmp
+    unfold cmpR Expr.cmpC
     rw [cmpT_unfold, C29.cmp_unfold, typecode_toExpr, typecode_toExpr]
     cases b with
     | op k' aux' bs =>
@@ -174,17 +174,17 @@ theorem cmpR_toExpr : ∀ (a b : CExpr), cmpR a b = Expr.cmp a.toExpr b.toExpr
       rw [this]; rfl
     | _ => rfl
   | .int v, b | .real v w, b | .cplx v w x y, b | .zero v w, b | .mi v, b | .term v, b => by
-    unfold cmpR Expr.cmp
+    unfold cmpR Expr.cmpC
     rw [cmpT_unfold, C29.cmp_unfold, typecode_toExpr, typecode_toExpr]
     cases b <;> rfl
-theorem cmpRL_toExpr : ∀ (as bs : List CExpr), cmpTL termCmpR as bs = Expr.cmpLWith Expr.cmpMI (toExprL as) (toExprL bs)
+theorem cmpRL_toExpr : ∀ (as bs : List CExpr), cmpTL termCmpR as bs = Expr.cmpLWith .byRepr Expr.cmpMI (toExprL as) (toExprL bs)
   | [], _ => by simp [cmpTL, toExprL, Expr.cmpLWith]
   | _ :: _, [] => by simp [cmpTL, toExprL, Expr.cmpLWith]
   | a :: as, b :: bs => by
     simp only [toExprL]
     rw [cmpTL_cons, C29.cmpL_cons, cmpRL_toExpr as bs]
     have := cmpR_toExpr a b
-    unfold cmpR Expr.cmp at this
+    unfold cmpR Expr.cmpC at this
     rw [this]; rfl
 end
 
